@@ -5,7 +5,7 @@
     a pass over its markers lets a label exceed its predecessor by at most one and keeps one marker for every remaining
     block.  [old_haplobin] / [old_calc_haplomat] (Proofs/C18_Haplo.v) are the FORMER code, kept as regression witness. *)
 From Coq Require Import PrimFloat Sorted.
-From PV Require Import Lib.Common Model.C18_Haplo Proofs.C18_Haplo Proofs.C18_Float Gen.C18_Kernel Proofs.C18_Kernel.
+From PV Require Import Lib.Common Model.C18_Haplo Proofs.C18_Haplo Proofs.C18_Float Gen.C18_Kernel Proofs.C18_Kernel Proofs.C18_Affine.
 Local Open Scope nat_scope.
 
 (** Greedy apportionment (nhaploblk_chrom): one count per chromosome, each >= 1, adding up to exactly the requested
@@ -377,6 +377,37 @@ Example C18_kernel_hyps_satisfiable :
                  /\ g_ohv_problem 4 1 hm 2 2 true = [[Some (13#2)]]%Q)
   /\ ~ (inject_Z 2 == 0)%Q.
 Proof. repeat split; try (vm_compute; reflexivity). - eexists. split; vm_compute; reflexivity. - discriminate. Qed.
+
+(** ** Scale covariance (exact arithmetic).  Under every positive affine map x |-> c*x + d of the genetic positions (another unit,
+    another origin) the apportionment, the block labels, the block boundaries and the whole haplotype matrix — hence every OHV / OPV /
+    genotype-builder value — are unchanged, for all layouts whose chromosome indices address existing markers.  (For binary64 the
+    correspondence exercises the same law with powers of two from 2^-40 to 2^20, where scaling commutes with every operation.) *)
+Theorem C18_affine_invariance : forall (c d : Q), (0 < c)%Q ->
+  forall (e1 e2 : err) (nhap : nat) (nblk : list nat) (geno : list (list (list Z))) (gp : list Q) (stix spix clen : list nat) (u : list (list Q)) (nt : nat),
+  Forall (fun st => st < length gp) stix -> Forall (fun sp => 1 <= sp <= length gp) spix ->
+  nhaploblk_chrom qops nhap (map (aff c d) gp) stix spix = nhaploblk_chrom qops nhap gp stix spix
+  /\ haplobin qops nblk (map (aff c d) gp) stix spix = haplobin qops nblk gp stix spix
+  /\ calc_bounds qops nhap (map (aff c d) gp) stix spix = calc_bounds qops nhap gp stix spix
+  /\ calc_haplomat qops e1 e2 nhap geno (map (aff c d) gp) stix spix clen u nt = calc_haplomat qops e1 e2 nhap geno gp stix spix clen u nt.
+Proof.
+  intros c d Hc e1 e2 nhap nblk geno gp stix spix clen u nt H1 H2.
+  exact (conj (nhaploblk_chrom_aff c d Hc nhap gp stix spix H1 H2)
+        (conj (haplobin_aff c d Hc nblk gp stix spix (in_range_combine (length gp) nblk stix spix H1 H2))
+        (conj (proj2 (calc_haplomat_aff c d Hc e1 e2 nhap geno gp stix spix clen u nt H1 H2))
+              (proj1 (calc_haplomat_aff c d Hc e1 e2 nhap geno gp stix spix clen u nt H1 H2))))).
+Qed.
+Print Assumptions C18_affine_invariance.
+
+(** block values are linear in the marker effects: scaling every effect by s scales every block value by s *)
+Theorem C18_block_value_scales : forall (s : Q) (g : list Z) (ucol : list Q) (st sp : nat),
+  (block_val g (map (Qmult s) ucol) st sp == s * block_val g ucol st sp)%Q.
+Proof. exact block_val_scale. Qed.
+Print Assumptions C18_block_value_scales.
+
+Example C18_affine_hyps_satisfiable :
+  (0 < 1 # 1024)%Q /\ Forall (fun st => st < length [0; 1#2; 1; 3; 4]%Q) [0; 3] /\ Forall (fun sp => 1 <= sp <= length [0; 1#2; 1; 3; 4]%Q) [3; 5]
+  /\ haplobin qops [2; 2] (map (aff (1 # 1024) 7) [0; 1#2; 1; 3; 4]%Q) [0; 3] [3; 5] = [Some 0; Some 1; Some 1; Some 2; Some 3].
+Proof. split; [reflexivity|]. split; [repeat constructor|]. split; [repeat constructor|]. vm_compute. reflexivity. Qed.
 
 (** non-vacuity: a concrete layout meets the hypotheses of the theorems above *)
 Example C18_hyps_satisfiable :
